@@ -23,7 +23,8 @@ pub enum Host {
     IterInto { u: usize },
     Search { root: usize, spec: SearchSpec },
     /// an edge walk driven through iterator adaptors: dir 0 out / 1 in / 2 `(&node).into_iter()`;
-    /// style 1 asks size_hint() around every next(), style 2 is `.map(body).collect()`
+    /// style 1 asks size_hint() around every next(), 2 `.map(body).collect()`, 3 `for_each`,
+    /// 4 `try_for_each`, 5 `step_by(2)`, 6 `skip(1)`, 7 `next` then `fold`, 8 `nth(0)` then `last`
     Adapted { u: usize, dir: u8, style: u8 },
 }
 
@@ -687,7 +688,7 @@ impl Engine for Inject {
             0..=1 => Host::IterOut { u: hu },
             2 => Host::IterIn { u: hu },
             3 => Host::IterInto { u: hu },
-            4..=5 => Host::Adapted { u: hu, dir: rng.below(3) as u8, style: rng.range(1, 2) as u8 },
+            4..=5 => Host::Adapted { u: hu, dir: rng.below(3) as u8, style: rng.range(1, 8) as u8 },
             _ => Host::Search { root: hu, spec: gen_host_spec(rng, directed, n) },
         };
         let in_graph = rng.chance(1, 3);
@@ -813,7 +814,10 @@ impl Engine for Inject {
             Host::IterOut { .. } => "host_iter_out".to_string(),
             Host::IterIn { .. } => "host_iter_in".to_string(),
             Host::IterInto { .. } => "host_into_iter".to_string(),
-            Host::Adapted { dir, style, .. } => format!("host_adapted_dir{dir}_{}", if *style == 1 { "size_hint" } else { "map_collect" }),
+            Host::Adapted { dir, style, .. } => format!(
+                "host_adapted_dir{dir}_{}",
+                ["", "size_hint", "map_collect", "for_each", "try_for_each", "step_by", "skip", "fold", "nth_last"][(*style as usize).min(8)]
+            ),
             Host::Search { spec, .. } => format!("host_{:?}_{:?}{}", spec.kind, spec.mode, if spec.transpose { "_T" } else { "" }).to_lowercase(),
         };
         stats.inc(&hk);
